@@ -95,6 +95,16 @@ def make_runner(cfg):
                 with linepoints.nopreempt():
                     observe()
 
+            def readyfail():
+                # the task's own failure arrives as the racing result
+                try:
+                    raise KeyError('task failed')
+                except KeyError:
+                    res = (False, ExceptionInfo())
+                rh.on_state_change((bp.READY, (job._job, None, res, 5)))
+                with linepoints.nopreempt():
+                    observe()
+
             def hard():
                 th.on_hard_timeout(job)
                 with linepoints.nopreempt():
@@ -144,6 +154,7 @@ def make_runner(cfg):
                 with linepoints.nopreempt():
                     observe()
             fns = dict(ready=ready, hard=hard, lost=lost, putfail=putfail,
+                       readyfail=readyfail,
                        ack=ack, softscan=softscan, hardscan=softscan)
             _lines_on()
             for k, name in enumerate(pair):
@@ -178,7 +189,9 @@ def make_runner(cfg):
             v = ('%s || %s: result callbacks fired %d times: %r' % (
                 pair[0], pair[1], len(ncb), ncb))
             sig = 'F20:set-not-idempotent'
-        elif seen and seen[-1][0] is True and kills and 'hard' in pair:
+        elif seen and (seen[-1][0] is True or
+                       seen[-1][1] != 'TimeLimitExceeded') \
+                and kills and 'hard' in pair:
             v = ('%s || %s: the job resolved with its result %r, yet the '
                  'time-limit scanner went on to signal its worker %r (which '
                  'may already run the next job)' % (pair[0], pair[1],
@@ -235,7 +248,8 @@ def explore_pair(arg):
 def configs(tier):
     b = 2 if tier == 'quick' else 3
     out = []
-    for pair in (['hard', 'ready'], ['lost', 'ready'], ['hard', 'lost']):
+    for pair in (['hard', 'ready'], ['lost', 'ready'], ['hard', 'lost'],
+                 ['hard', 'readyfail']):
         out.append((dict(pair=pair, acked=True), b))
     out.append((dict(pair=['softscan', 'ready'], acked=True), b))
     out.append((dict(pair=['putfail', 'ack'], acked=False), b))
